@@ -59,17 +59,23 @@ def permissive : RunSt :=
              sendQ := true, orderQ := [(.version, true)], spStarted := true } }
 
 /-- model side: the calls an item performs, internal continuations expanded (two levels suffice) -/
-def callsOf : Nat → Item → List String
-  | 0, _ => []
-  | fuel + 1, it =>
-    match exec permissive it {} with
-    | .cont _ push => push.flatMap fun (it', _) =>
+def callsOf : Nat → Item → Arg → List String
+  | 0, _, _ => []
+  | fuel + 1, it, a =>
+    match exec permissive it a with
+    | .cont _ push => push.flatMap fun (it', a') =>
         match itemName it' with
         | some n => [n]
-        | none => callsOf fuel it'
+        | none => callsOf fuel it' a'
     | .fail _ _ => []
 
-def modelCalls (it : Item) : List String := (callsOf 3 it).filter isCollab
+/-- the argument classes under which an output body takes different branches: an element SPAKE2 rejects
+    (`except` branch of `compute_key`, which comes first in the source), then the ordinary one -/
+def argVariants : List Arg := [{ pake := .invalid }, {}]
+
+def modelCalls (it : Item) : List String :=
+  let ls := (argVariants.map fun a => (callsOf 3 it a).filter isCollab).eraseDups
+  ls.flatten
 
 def outputsOf {σ ι ω : Type} [DecidableEq ω] (states : List σ) (inputs : List ι)
     (table : σ → ι → Option (σ × List ω)) : List ω :=
